@@ -57,7 +57,10 @@ HAND_ITEMS = [       # a literal PUSH0 in the input (the tool's own spelling of 
 # rebuilt: the tool's warm/cold accounting must name the key the same way whichever way the zero push is spelled
 PINNED_TEXTS = ["PUSH0 SLOAD PUSH0 PUSH0 LOG0 PUSH0 SLOAD PUSH 3 PUSH 3 SUB ADD", "PUSH 0 SLOAD GAS POP PUSH 0 SLOAD PUSH 3 PUSH 3 SUB ADD",
                 "PUSH0 BALANCE PUSH0 PUSH0 LOG0 PUSH 0 BALANCE PUSH 1 PUSH 1 SUB ADD", "PUSH 0 SLOAD PUSH0 SLOAD ADD",
-                "DUP1 PUSH 0 SSTORE GAS POP PUSH 0 SLOAD PUSH 2 PUSH 2 SUB ADD", "PUSH 0 DUP1 SLOAD SWAP1 SLOAD ADD PUSH 0 ADD"]
+                "DUP1 PUSH 0 SSTORE GAS POP PUSH 0 SLOAD PUSH 2 PUSH 2 SUB ADD", "PUSH 0 DUP1 SLOAD SWAP1 SLOAD ADD PUSH 0 ADD",
+                # constants at and just above a power of 256: the byte width the tool reports for a PUSH
+                "PUSH 80000000 DUP1 ADD DUP1 MUL PUSH 0 ADD", "PUSH 10000000000000000 PUSH 0 ADD", "PUSH 100000000000000 PUSH 0 ADD",
+                "PUSH 100000000000000000000000000000000 PUSH 0 ADD", "PUSH 10000000000000000000000000000000000000000 PUSH 0 ADD"]
 
 
 def _items(pairs):
